@@ -95,6 +95,13 @@ def pipeline(mlar, rng, work, k, tier):
     if rc != 0:
         return meta, ["create failed (rc %d): %s" % (rc, err[-200:].decode("utf8", "replace"))], "create-failed"
     kargs = ["-k", os.path.join(SAMPLES, reader[0])] if enc else []
+    # several candidate keys, the matching one not first (every key option must be honoured)
+    decoys = [x for x in KEYS if x not in keyset]
+    kargs_multi = []
+    if enc and decoys:
+        for dk in decoys[:rng.randint(1, 2)]:
+            kargs_multi += ["-k", os.path.join(SAMPLES, dk[0])]
+        kargs_multi += ["-k", os.path.join(SAMPLES, reader[0])]
 
     def check_archive(a, kargs, label):
         rc, out, err = run(mlar, ["list", "-i", a] + kargs, d)
@@ -153,6 +160,14 @@ def pipeline(mlar, rng, work, k, tier):
                 errs.append("%s: to-tar produced an unreadable tar: %s" % (label, e))
 
     check_archive(arch, kargs, "created")
+    if kargs_multi:
+        n0 = names[0]
+        rc, out, err = run(mlar, ["cat", "-i", arch] + kargs_multi + [n0], d)
+        if rc != 0 or out != files[n0]:
+            errs.append("cat with %d candidate keys (the matching one last) returns %d bytes (rc %d), file has %d" % (len(kargs_multi) // 2, len(out), rc, len(files[n0])))
+        rc, out, err = run(mlar, ["list", "-i", arch] + kargs_multi, d)
+        if rc != 0 or out.decode("utf8", "replace").splitlines() != names:
+            errs.append("list with %d candidate keys (the matching one last) fails (rc %d)" % (len(kargs_multi) // 2, rc))
     # convert to another layer / key choice
     enc2 = rng.random() < 0.5
     comp2 = rng.random() < 0.5
@@ -202,6 +217,18 @@ def pipeline(mlar, rng, work, k, tier):
             n_out = sum(len(fs) for _, _, fs in os.walk(od)) if os.path.isdir(od) else 0
             if rc == 0 or n_out:
                 errs.append("%s: extract exits with %d and writes %d files" % (label, rc, n_out))
+            for sub, extra in (("to-tar", []), ("convert", ["-l"]), ("repair", ["-l"])):
+                o2 = os.path.join(d, "bad_out.bin")
+                if os.path.exists(o2):
+                    os.remove(o2)
+                rc, out, err = run(mlar, [sub, "-i", arch] + ka + ["-o", o2] + extra, d)
+                sz = os.path.getsize(o2) if os.path.exists(o2) else 0
+                # convert / repair write the new archive's header before they can know: only file CONTENT counts;
+                # a tar or archive holding no member data is compared by listing what it holds
+                if rc == 0:
+                    errs.append("%s: %s exits with status 0" % (label, sub))
+                if sub == "to-tar" and sz:
+                    errs.append("%s: to-tar leaves %d bytes in its output file" % (label, sz))
     else:
         ka = ["-k", os.path.join(SAMPLES, KEYS[0][0])]
         rc, out, err = run(mlar, ["cat", "-i", arch] + ka + [names[-1]], d)
@@ -210,6 +237,11 @@ def pipeline(mlar, rng, work, k, tier):
         rc, out, err = run(mlar, ["list", "-i", arch] + ka, d)
         if rc == 0 or out:
             errs.append("key given for an unencrypted archive: list exits with %d and prints %d bytes" % (rc, len(out)))
+        o2 = os.path.join(d, "bad_out.tar")
+        rc, out, err = run(mlar, ["to-tar", "-i", arch] + ka + ["-o", o2], d)
+        sz = os.path.getsize(o2) if os.path.exists(o2) else 0
+        if rc == 0 or sz:
+            errs.append("key given for an unencrypted archive: to-tar exits with %d and leaves %d bytes in its output file" % (rc, sz))
     cls = "enc=%d comp=%d files=%d maxsize=%s convert=%d%d" % (enc, comp, len(files), "big" if max(map(len, files.values())) >= 131072 else "small", enc2, comp2)
     shutil.rmtree(d, ignore_errors=True)
     return meta, errs, cls
